@@ -72,6 +72,27 @@ BLOCKED = {'func_int_general': 'C12: lstsq(rcond=) TypeError for every input',
                                   'instead of rearrange[swap]) - IndexError in accuracy_on_data for some data'}
 
 
+# d = 1 (shape variant 'd1', ONE core 1 x n x 1): calls that raise for EVERY one-core tensor on the clean library.  The
+# argument check of C09.no_mutation is still made (also a raising call must leave its arguments alone); everything else
+# of the table accepts a one-core tensor and is checked like any other shape.
+D1_REJECTED = {
+    'als': 'accuracy(Y, Yold) after the first sweep: the difference of two one-core tensors has boundary rank 2, norm raises',
+    'als_func': 'as als',
+    'cross': 'as als',
+    'cross_act': 'needs d >= 2 (matmul of the interface matrices)',
+    ('accuracy', 'tt'): 'sub of two one-core tensors is not a TT-tensor (boundary rank 2): norm raises',
+    'optima_tt': 'optima_tt_max(shifted square) reshapes a 1 x n x 1 core of the squared tensor wrongly',
+    ('orthogonalize', 'k1'): 'mode 1 does not exist',
+    'orthogonalize_left': 'a single step needs two cores (ValueError: invalid mode number)',
+    'orthogonalize_right': 'a single step needs two cores (ValueError: invalid mode number)',
+}
+
+
+def _blocked(fn, variant, sv):
+    return BLOCKED.get(fn) or BLOCKED.get((fn, variant)) or \
+        (D1_REJECTED.get(fn) or D1_REJECTED.get((fn, variant)) if sv == 'd1' else None)
+
+
 class NA(Exception):
     """the pattern does not exist for this shape variant (e.g. QTT of a mode of size 1)"""
 
@@ -120,6 +141,8 @@ def arr(x, layout):
 
 
 def cfg(sv, pow2=False, equal=False):
+    if sv == 'd1':      # ONE core 1 x 4 x 1: the smallest TT-tensor there is (no sweep step, no bond, no interior core)
+        return ([4], [1, 1])
     if equal:       # all modes equal (and a power of two)
         return {'base': ([4, 4, 4], [1, 3, 2, 1]), 'rank1': ([4, 4, 4], [1, 1, 1, 1]), 'd2': ([4, 4], [1, 3, 1]),
                 'mode1': ([1, 1, 1], [1, 2, 2, 1]), 'd4': ([4, 4, 4, 4], [1, 2, 3, 2, 1])}[sv]
@@ -133,7 +156,7 @@ def cfg(sv, pow2=False, equal=False):
 
 
 def ndim(sv):
-    return {'d2': 2, 'd4': 4}.get(sv, 3)
+    return {'d1': 1, 'd2': 2, 'd4': 4}.get(sv, 3)
 
 
 def gtt(n, r, seed, kind, layout):
@@ -507,6 +530,8 @@ def _(L, sv, v, s):
 # ------------------------------------------------------------------ core
 
 def _core(sv, s, L, pow2=False):
+    if sv == 'd1':
+        raise NA('single-core argument, not a TT-tensor: no d = 1 form')
     shp = {'base': (3, 4, 2), 'rank1': (1, 4, 1), 'mode1': (2, 1, 3), 'd2': (1, 4, 3),
            'd4': (2, 8, 3)}[sv]
     if pow2 and sv == 'mode1':
@@ -951,6 +976,8 @@ def _(L, sv, v, s):
 # ------------------------------------------------------------------ maxvol / optima / props
 
 def _tall(sv, s, L):
+    if sv == 'd1':
+        raise NA('matrix argument, not a TT-tensor: no d = 1 form')
     shp = {'base': (8, 3), 'rank1': (5, 1), 'mode1': (2, 1), 'd2': (6, 2), 'd4': (9, 4)}[sv]
     return arr(gen.rng('C09tall', sv, s).normal(size=shp), L)
 
@@ -1120,6 +1147,8 @@ def _(L, sv, v, s):
 # ------------------------------------------------------------------ svd / tensors / transformation
 
 def _mat(sv, s, L, shape=None):
+    if sv == 'd1':
+        raise NA('matrix argument, not a TT-tensor: no d = 1 form')
     shp = shape or {'base': (5, 8), 'rank1': (4, 1), 'mode1': (1, 6), 'd2': (6, 6), 'd4': (7, 4)}[sv]
     return arr(gen.rng('C09mat', sv, s).normal(size=shp), L)
 
@@ -1369,9 +1398,9 @@ def no_mutation(fn, layout, sv, variant, seed, form='asis'):
     if exc is not None:
         if layout == 'R' and isinstance(exc, ValueError) and 'read-only' in str(exc):
             return FAIL(f'the call tried to write into a (read-only) argument: {str(exc)[:200]}')
-        why = BLOCKED.get(fn) or BLOCKED.get((fn, variant))
+        why = _blocked(fn, variant, sv)
         if why:
-            return SKIP(f'blocked by known defect {why}: {type(exc).__name__}')
+            return SKIP(f'blocked by known defect / not defined for this shape: {why}: {type(exc).__name__}')
         return FAIL(f'pattern not exercised, call raised {type(exc).__name__}: {str(exc)[:200]}')
     if not before:
         return TRIVIAL('no tensor / array / list argument')
@@ -1382,6 +1411,19 @@ def no_mutation(fn, layout, sv, variant, seed, form='asis'):
 def no_alias(fn, layout, sv, variant, seed, form='asis'):
     """No array reachable from the result shares memory with an array reachable from an argument; the result
     container is not an argument container (documented pass-through arguments excepted)."""
+    return _no_alias(fn, layout, sv, variant, seed, form)
+
+
+@clause('C09.no_alias.one_core_full', funcs=('transformation.full', 'transformation.full_matrix'))
+def no_alias_one_core_full(fn, layout, sv, variant, seed, form='asis'):
+    """The same statement for full / full_matrix of a ONE-core tensor, isolated: on the clean library `full([G])` is
+    `Y[0][0, ..., 0]`, a VIEW of the argument's only core (no tensordot ran, nothing was copied), so a write into the
+    dense result changes the TT-tensor and vice versa; full_matrix reshapes / transposes that view (possible genuine
+    defect, reported; every d >= 2 goes through np.tensordot and is fresh)."""
+    return _no_alias(fn, layout, sv, variant, seed, form)
+
+
+def _no_alias(fn, layout, sv, variant, seed, form='asis'):
     try:
         call = _build(fn, layout, sv, variant, seed, form)
     except NA as e:
@@ -1392,9 +1434,9 @@ def no_alias(fn, layout, sv, variant, seed, form='asis'):
     if exc is not None:
         if layout == 'R' and isinstance(exc, ValueError) and 'read-only' in str(exc):
             return SKIP('write attempt into a read-only argument: reported by C09.no_mutation')
-        why = BLOCKED.get(fn) or BLOCKED.get((fn, variant))
+        why = _blocked(fn, variant, sv)
         if why:
-            return SKIP(f'blocked by known defect {why}: {type(exc).__name__}')
+            return SKIP(f'blocked by known defect / not defined for this shape: {why}: {type(exc).__name__}')
         return FAIL(f'pattern not exercised, call raised {type(exc).__name__}: {str(exc)[:200]}')
     outs = [('result', res)] + ([('method results', extra)] if extra is not None else [])
     arg_leaves = [(f'{k!r}{p}', a) for k, x in call.items() if k not in call.alias_ok for p, a in _leaves(x)]
@@ -1542,6 +1584,25 @@ def cases(tier, seed):
                     s = rs()
                     for cid in ('C09.no_mutation', 'C09.no_alias'):
                         yield cid, dict(fn=fn, layout='C', sv=sv, variant=v, seed=s, form=form)
+    # ---- d = 1: ONE core 1 x n x 1, the smallest TT-tensor (own generator: the cases above keep their seeds).  No sweep step,
+    # no bond, no interior core: every function that leaves "the cores it did not touch" as they are hands the argument's
+    # array through.  Every flag variant of every pattern that has a d = 1 form, C-ordered (alternately read-only) - reshapes /
+    # ascontiguousarray are views there - and once more F-ordered / as a strided view; thorough: all four layouts, two seeds.
+    g1 = gen.rng('C09d1', seed)
+    for fn in sorted(PATTERNS):
+        for k, v in enumerate(PATTERNS[fn][1]):
+            for L in (LAYOUTS if big else ('R' if k % 2 else 'C', 'V' if k % 2 else 'F')):
+                for rep in range(2 if big else 1):
+                    s = int(g1.integers(1 << 20))
+                    try:
+                        _build(fn, 'C', 'd1', v, s)
+                    except NA:
+                        continue            # single cores / matrices: no TT-tensor in the call
+                    except Exception:
+                        pass                # (a builder that raises shows up as a failing case)
+                    alias = 'C09.no_alias.one_core_full' if fn in ('full', 'full_matrix') else 'C09.no_alias'
+                    for cid in ('C09.no_mutation', alias):
+                        yield cid, dict(fn=fn, layout=L, sv='d1', variant=v, seed=s)
     for side in ('left', 'right'):
         for L in LAYOUTS[:3]:
             for sv in SHAPE_VARIANTS:
